@@ -50,6 +50,13 @@ def _ix(x):
     return x if z3.is_expr(x) else z3.IntVal(x)
 
 
+def kin(x):
+    """kinematic class of the frame whose coordinates define a QSW/TNW triad: all non-rotating frames give the same physical
+    triad (their mutual rotations carry no rate), the Earth-fixed ones (PEF, ITRF, TIRF) another one; -1 = not a local frame"""
+    x = _ix(x) if x is not None else z3.IntVal(-1)
+    return z3.If(x < 0, -1, z3.If(x < N_INERTIAL, 0, 1))
+
+
 class SF:
     """symbolic frame"""
     def __init__(self, idx):
@@ -95,9 +102,7 @@ class TMat:
                 return self
             REC.need("matrix product well typed: dst(first) = src(second)", o.dst == self.src)
             if o.dst_ldef is not None or self.src_ldef is not None:
-                a = o.dst_ldef if o.dst_ldef is not None else z3.IntVal(-1)
-                b = self.src_ldef if self.src_ldef is not None else z3.IntVal(-1)
-                REC.need("matrix product: same local-frame definition on both sides", a == b)
+                REC.need("matrix product: same local-frame definition on both sides", kin(o.dst_ldef) == kin(self.src_ldef))
             return TMat(o.src, self.dst, o.src_ldef, self.dst_ldef)
         if isinstance(o, TCov):
             return Half(self, o)
@@ -117,9 +122,8 @@ class Half:
             return TCov(c.frame, c.ldef)
         REC.need("covariance is expressed in the source frame of the rotation applied to it", c.frame == m.src)
         if m.src_ldef is not None or c.ldef is not None:
-            a = m.src_ldef if m.src_ldef is not None else z3.IntVal(-1)
-            b = c.ldef if c.ldef is not None else z3.IntVal(-1)
-            REC.need("local covariance is rotated back with the triad it was built with", z3.Or(c.frame < QSW, a == b))
+            REC.need("local covariance is rotated back with the triad it was built with",
+                     z3.Or(c.frame < QSW, kin(m.src_ldef) == kin(c.ldef)))
         return TCov(m.dst, m.dst_ldef)
 
 
@@ -217,7 +221,7 @@ def run_sequence(k):
             # coordinates in the inertial frame the covariance was attached in
             REC.need(f"after step {i + 1}: covariance value is expressed in the requested frame", cov.base.frame == T[i])
             REC.need(f"after step {i + 1}: a QSW/TNW covariance refers to the inertial (attach-frame) position and velocity",
-                     z3.Or(T[i] < QSW, (cov.base.ldef if cov.base.ldef is not None else z3.IntVal(-1)) == A))
+                     z3.Or(T[i] < QSW, kin(cov.base.ldef) == kin(A)))
             trace.append(list(REC.checks))
         return list(REC.checks)
 
@@ -344,11 +348,66 @@ def follow_group():
     return obs, {"paths": n}
 
 
+def copyseq_group(k):
+    """k in-place frame changes, then Cov.copy(frame=T): the copy is the covariance expressed in T (local triads from the attach
+    frame), the receiver keeps its value, and the copy keeps converting correctly afterwards (one more change on the copy)"""
+    covmod, TCovArr = load_cov()
+    obs = []
+    A, T0, T1 = z3.Int("A"), z3.Int("T0"), z3.Int("T1")
+    S = [z3.Int(f"S{i}") for i in range(k)]
+    n = 0
+
+    def setup():
+        CTX.pre += [A >= 0, A < N_INERTIAL, T0 >= 0, T0 < len(NAMES), T1 >= 0, T1 < len(NAMES)] + \
+                   [z3.And(t >= 0, t < len(NAMES)) for t in S]
+        REC.checks.clear()
+
+    def body():
+        orb = TOrb(A)
+        cov = TCovArr(orb, TCov(A, None), SF(A))
+        for i in range(k):
+            cov.frame = SF(S[i])
+        before = (cov.base.frame, cov.base.ldef)
+        new = cov.copy(frame=SF(T0))
+        REC.need("copy(frame=...) leaves the receiver's value untouched",
+                 z3.And(cov.base.frame == before[0], z3.BoolVal(cov.base.ldef is before[1])))
+        REC.need("the copy is expressed in the requested frame", new.base.frame == T0)
+        REC.need("a QSW/TNW copy refers to the inertial (attach-frame) position and velocity",
+                 z3.Or(T0 < QSW, kin(new.base.ldef) == kin(A)))
+        new.frame = SF(T1)
+        REC.need("a later change of the copy is expressed in the requested frame", new.base.frame == T1)
+        REC.need("a later QSW/TNW change of the copy refers to the attach-frame position and velocity",
+                 z3.Or(T1 < QSW, kin(new.base.ldef) == kin(A)))
+        return list(REC.checks)
+
+    for pc, checks in explore(body, maxpaths=200000, setup=setup):
+        n += 1
+        tw = z3.Solver()
+        for c in list(CTX.pre) + list(pc):
+            tw.add(c)
+        obs.append(dict(name=f"copyseq{k}/p{n}/twin", smt2=tw.sexpr(), trivial=False, expect="sat", vars=[], timeout=30,
+                        solver="z3", desc="reachability twin", replay=None, n_constraints=len(pc), tags=["twin"]))
+        goals = [z3.Not(c) for _, c in checks if not z3.is_true(z3.simplify(c))]
+        if not goals:
+            continue
+        s = z3.Solver()
+        for c in list(CTX.pre) + list(pc):
+            s.add(c)
+        s.add(z3.Or(goals))
+        obs.append(dict(name=f"copyseq{k}/p{n}", smt2=s.sexpr(), trivial=False, expect="unsat",
+                        vars=["A", "T0", "T1"] + [f"S{i}" for i in range(k)], timeout=30, solver="z3",
+                        desc=f"{k} frame changes, then copy(frame=T0), then one change of the copy: " + "; ".join(sorted({d for d, _ in checks})),
+                        replay={"k": "copyseq", "n": k}, n_constraints=len(pc), tags=["typed"]))
+    return obs, {"paths": n}
+
+
 def groups(tier):
     g = {"follow": follow_group}
     for k in range(1, bounds(tier)["sequence_length"] + 1):
         g[f"seq{k}"] = (lambda k=k: run_sequence(k))
     g["copy"] = copy_group
+    for k in range(0, 3 if tier == "quick" else 4):
+        g[f"copyseq{k}"] = (lambda k=k: copyseq_group(k))
     return g
 
 
@@ -374,6 +433,8 @@ def replay(ob, model):
         ok = o.cov.frame.name == want and o.frame.name == T0
         return {"reproduced": not ok, "signature": "StateVector.frame covariance clause",
                 "detail": f"attach={A} cov frame={C} new state frame={T0}: cov ends in {o.cov.frame.name}, expected {want}"}
+    if k == "copyseq":
+        return replay_copyseq(ob, model, A)
     if k == "copy":
         seq = [NAMES[int(model.get("T0", 0))]]
     else:
@@ -416,3 +477,44 @@ def replay(ob, model):
             "detail": f"attach={A} sequence={seq}: visiting the frames in sequence gives a covariance differing from the direct "
                       f"conversion to {seq[at] if at is not None else seq[-1]} (after step {None if at is None else at + 1}) by {err:.3g} (scale {scale:.3g}) [{shape}]",
             "inputs": {"attach": A, "sequence": seq}}
+
+
+def replay_copyseq(ob, model, A):
+    import numpy as np
+    from beyond.orbits import StateVector
+    from beyond.dates import Date
+    from beyond.orbits.cov import Cov
+    n = ob["replay"]["n"]
+    seq = [NAMES[int(model.get(f"S{i}", 0))] for i in range(n)]
+    T0, T1 = NAMES[int(model.get("T0", 0))], NAMES[int(model.get("T1", 0))]
+    rng = np.random.default_rng(7)
+    L = rng.normal(size=(6, 6))
+    C0 = L @ L.T * 1e4
+    sv = StateVector([7e6, 1e5, -2e5, 100.0, 7.5e3, 500.0], Date(2016, 5, 5, 12), "cartesian", A)
+
+    def fresh():
+        o = sv.copy()
+        o.cov = Cov(o, C0.copy(), o.frame)
+        return o
+
+    def direct(f):
+        d = fresh()
+        d.cov.frame = f
+        return np.array(d.cov)
+    try:
+        o = fresh()
+        for f in seq:
+            o.cov.frame = f
+        before = np.array(o.cov).copy()
+        c2 = o.cov.copy(frame=T0)
+        errs = {"receiver changed by copy": (np.abs(np.array(o.cov) - before).max(), np.abs(before).max()),
+                f"copy(frame={T0}) vs direct conversion": (np.abs(np.array(c2) - direct(T0)).max(), np.abs(direct(T0)).max())}
+        c2.frame = T1
+        errs[f"copy then frame={T1} vs direct conversion"] = (np.abs(np.array(c2) - direct(T1)).max(), np.abs(direct(T1)).max())
+    except Exception as e:  # noqa
+        return {"reproduced": True, "signature": f"Cov.copy after a history raises {type(e).__name__}",
+                "detail": f"attach={A} history={seq} copy(frame={T0}) then {T1}: {e!r}"}
+    bad = {k_: float(e / s_) for k_, (e, s_) in errs.items() if e > 1e-6 * s_}
+    return {"reproduced": bool(bad), "signature": "Cov.copy forgets the attach frame",
+            "detail": f"attach={A} history={seq} copy(frame={T0}) then frame={T1}: relative differences {bad}",
+            "inputs": {"attach": A, "history": seq, "T0": T0, "T1": T1}}
